@@ -262,6 +262,18 @@ impl Prop for C03Prop {
         let mut rng = Rng::new(seed, "config");
         let specs = Specs::from_index(idx as usize % 96);
         let mut case = Case::new("C03", seed, specs);
+        {
+            let mut hr = Rng::new(seed, "config.huge");
+            if hr.chance(1, 2500) {
+                // a graph of thousands of edges (strategy thresholds), then a short tail
+                let regime = *hr.pick(&[gen::WeightRegime::AllNan, gen::WeightRegime::Dyadic, gen::WeightRegime::SmallInt, gen::WeightRegime::Nasty]);
+                let mut wr = Rng::new(seed, "workload.huge");
+                case.ops = gen::gen_huge_history(&mut wr, specs, regime, false);
+                case.params.put("source", crate::core::json::J::s("history loading thousands of edges"));
+                case.envs = vec![Env { keying: if hr.chance(1, 2) { 0 } else { seed | 1 }, pool: if hr.chance(1, 8) { 1 } else { 2 + hr.below(15) }, sched: crate::core::rng::mix(seed, 78) }];
+                return case;
+            }
+        }
         // uniformly weighted or uniformly unweighted, never mixed (as the property restricts)
         let regime = *rng.pick(&[gen::WeightRegime::AllNan, gen::WeightRegime::Dyadic, gen::WeightRegime::Dyadic, gen::WeightRegime::SmallInt, gen::WeightRegime::Nasty, gen::WeightRegime::Tiny, gen::WeightRegime::NearEqual]);
         let o = gen::HistOpts { specs, max_ops: 20, regime, derived: false, restart: rng.chance(1, 2), names_min: 3, names_max: 6, dup_bias: 45, big: rng.chance(1, 200) };
@@ -305,7 +317,7 @@ impl Prop for C03Prop {
     }
     fn cross(&self, _case: &Case, _results: &[EnvResult], _cx: &mut Ctx) {}
     fn rule(&self) -> String {
-        "lifecycle histories (<= 20 ops) biased to second edges on existing pairs (smaller / equal / larger weight, same / opposite orientation) under KeepFirst / KeepLast / multi-edge, uniformly weighted or uniformly unweighted, all 96 specs; after EVERY op: hop-1 sets from single_source vs stored edges, weighted single_source distances, weighted closeness and betweenness vs the definitions evaluated on get_all_edges() of the real graph, and (hook) successors_vec / predecessors_vec vs min stored weight per pair. distinct_nontrivial = distinct (specs, history) in which some pair received a second edge and edges remain".into()
+        "lifecycle histories (<= 20 ops) biased to second edges on existing pairs (smaller / equal / larger weight, same / opposite orientation) under KeepFirst / KeepLast / multi-edge, uniformly weighted or uniformly unweighted, all 96 specs; after EVERY op: hop-1 sets from single_source vs stored edges, weighted single_source distances, weighted closeness and betweenness vs the definitions evaluated on get_all_edges() of the real graph, and (hook) successors_vec / predecessors_vec vs min stored weight per pair. distinct_nontrivial = distinct (specs, history) in which some pair received a second edge and edges remain; one case in 2500 loads 2 100 - 12 500 edges (one to three batches or the constructor, same edge values re-submitted on multi-edge graphs) into 45-180 nodes and continues with a short tail (strategy thresholds)".into()
     }
     fn assumptions(&self) -> Vec<String> {
         vec!["weighted betweenness is compared only when all weights are dyadic (ties exact); distances and closeness at 1e-9".into(), "non-negative weights; closeness/betweenness only with strictly positive weights".into()]
